@@ -2,9 +2,9 @@ package main
 
 import (
 	"fmt"
-	"os"
 	"go/token"
 	"go/types"
+	"os"
 	"strings"
 
 	"golang.org/x/tools/go/ssa"
@@ -719,7 +719,7 @@ func (w *World) inlinableShape(f *ssa.Function) bool {
 		for _, b := range f.Blocks {
 			for _, in := range b.Instrs {
 				switch in.(type) {
-				case *ssa.Defer, *ssa.RunDefers, *ssa.Select, *ssa.Go:
+				case *ssa.Defer, *ssa.RunDefers, *ssa.Select:
 					return false
 				}
 			}
